@@ -12,7 +12,9 @@ EXPLANATION = (
     "existing line.")
 UNVERIFIED = [
     "GraphQLError.__init__/__str__/formatted are not under contract (dynamic exception plumbing "
-    "outside the subset): that positions/nodes are mapped through get_location is not decided",
+    "outside the subset): that positions/nodes are mapped through get_location is not decided "
+    "(BOUNDED stand-in: constructed errors over 8 nodes of 3 sources, rendered headers and locations "
+    "against positions recomputed from the text); located_error: the error's own nodes win (call-site assertion)",
     "that the excerpted text equals the named line character by character (only its existence "
     "and the safety of every index are decided); the regex split/finditer models are assumed",
     "offsets strictly inside a CR LF pair are excluded (as in the property statement)",
@@ -121,7 +123,40 @@ def search(budget=30000, seed=0, **_):
     return None
 
 
+def lift_located():
+    """A resolver raises an error that already carries the node where it happened (another place of
+    the same document, or of another source): the reported location must be that node's true
+    line and column, not the position of the field being completed."""
+    from graphql import GraphQLError, build_schema, graphql_sync, parse
+    schema = build_schema("type Query { a: String b: String }")
+    text = "{\n  a\n      b\n}"
+    doc = parse(text)
+    sels = doc.definitions[0].selection_set.selections
+    other = parse("\n\n\n     { zzz }").definitions[0].selection_set.selections[0]
+    for label, own, want in (("the node of another field", [sels[1]], [(3, 7)]),
+                             ("a node of another source", [other], [(4, 8)]),
+                             ("two nodes", [sels[1], sels[0]], [(3, 7), (2, 3)]),
+                             ("a single node, not in a list", sels[1], [(3, 7)])):
+        def resolver(*_a, _own=own):
+            raise GraphQLError("boom", _own)
+        r = graphql_sync(schema, text, root_value={"a": resolver, "b": "x"})
+        got = [tuple(l) for l in (r.errors[0].locations or [])] if r.errors else None
+        if got != want:
+            return {"confirmed": True, "entry": "graphql_sync",
+                    "input": {"query": text, "resolver of a": f"raises GraphQLError('boom', nodes={label})"},
+                    "observed": f"locations {got}, the error's own node(s) are at {want}"}
+        import re
+        rendered = [(int(a), int(b)) for a, b in re.findall(r"^[^\n:]+:(\d+):(\d+)$", str(r.errors[0]), re.M)]
+        if rendered != want:
+            return {"confirmed": True, "entry": "graphql_sync + str(error)",
+                    "input": {"query": text, "resolver of a": f"raises GraphQLError('boom', nodes={label})"},
+                    "observed": f"str(error) renders the positions {rendered}, the error reports {got}"}
+    return {"confirmed": False}
+
+
 def lift(model, req):
+    if "located_error" in str(req.get("target", "")):
+        return lift_located()
     for body in find_bodies(model, []):
         f = check_body(body)
         if f:
@@ -148,16 +183,74 @@ except GraphQLSyntaxError as e:
 }
 
 
+RENDER_CHECK = r'''
+import itertools, json, re
+from graphql import GraphQLError, Source, parse
+from graphql.language import NameNode
+bad = None
+srcs = [Source("{\n  a\n      b\n}", "one.graphql"), Source("\r\n\r\n   { zzz  y }", "two.graphql"),
+        Source('{ p(a: "x\u2028y") q }', "three.graphql")]
+pool = []
+for s in srcs:
+    for sel in parse(s).definitions[0].selection_set.selections:
+        pool.append(sel)
+pool.append(NameNode(value="built"))          # a node without location
+pool.append(parse("{ n }", no_location=True).definitions[0])
+def true_pos(node):
+    body = node.loc.source.body
+    off = node.loc.start
+    line, last = 1, 0
+    for m in re.finditer(r"\r\n|\n|\r", body):
+        if m.start() >= off:
+            break
+        line += 1
+        last = m.end()
+    return (node.loc.source.name, line, off + 1 - last)
+for r in (1, 2, 3):
+    for combo in itertools.permutations(pool, r):
+        err = GraphQLError("boom", list(combo))
+        want = [true_pos(n) for n in combo if n.loc]
+        got = [(l.line, l.column) for l in (err.locations or [])]
+        if got != [w[1:] for w in want]:
+            bad = {"nodes": [repr(n)[:60] for n in combo], "observed": f"locations {got}, true positions {want}"}
+            break
+        rendered = [(a, int(b), int(c)) for a, b, c in re.findall(r"^([^\n:]+):(\d+):(\d+)$", str(err), re.M)]
+        if rendered != want:
+            bad = {"nodes": [repr(n)[:60] for n in combo],
+                   "observed": f"str(error) renders {rendered}, the nodes are at {want}"}
+            break
+    if bad:
+        break
+print("RENDER " + json.dumps(bad))
+'''
+
+
 def bounded_checks(tier, seed):
-    """Thorough tier: the bounded stand-in search of this property also runs when nothing is
-    undecided (deeper exploration, labelled bounded; a failing input is replayed by construction)."""
+    """Always: the text rendering of an error (GraphQLError.__str__ is not under contract) names the
+    true position of each of its nodes - BOUNDED: every sequence of 1..3 distinct nodes out of a pool
+    of 8 (three sources with LF, CR LF and U+2028, a node built without location, a node parsed with
+    no_location).  Thorough tier: additionally the bounded stand-in search of this property."""
+    import json
+    rc, outp = run_native(RENDER_CHECK)
+    res, ok = None, False
+    for line in outp.splitlines():
+        if line.startswith("RENDER "):
+            res, ok = json.loads(line[7:]), True
+    if not ok:
+        raise RuntimeError(outp[-600:])
+    out = [{"id": "C10/bounded/rendering-names-the-true-positions",
+            "function": "GraphQLError.__init__ (locations from nodes) / GraphQLError.__str__",
+            "tool": "constructed errors, rendered headers vs positions recomputed from the source text, native",
+            "bound": "sequences of 1..3 distinct nodes out of 8 (3 sources: LF, CR LF, U+2028; one node without loc, "
+                     "one parsed with no_location)",
+            "failed": res is not None, "input": res, "output": outp[-1000:]}]
     if tier != "thorough":
-        return []
+        return out
     from pyvc.checker import run_standin
     res = run_standin(STANDIN, seed)
-    return [{"id": "C10/bounded/standin-search", "function": STANDIN,
-             "tool": "native differential search", "bound": STANDIN_BUDGET,
-             "failed": bool(res), "input": res, "output": ""}]
+    return out + [{"id": "C10/bounded/standin-search", "function": STANDIN,
+                   "tool": "native differential search", "bound": STANDIN_BUDGET,
+                   "failed": bool(res), "input": res, "output": ""}]
 
 
 def native_checks(tier, seed):
